@@ -4,6 +4,7 @@ import (
 	"fmt"
 	"go/token"
 	"go/types"
+	"strings"
 
 	"verif/third_party/xtools/go/ssa"
 
@@ -122,6 +123,36 @@ func c16Rules(p *core.Prog, r *core.Run) {
 		r.Check("C16.TTL", fmt.Sprintf("expiry:store#%d", i), ok, p.InstrPos(st), "expiration = timeNow() + ttl seconds with ttl exactly as returned by the lookup (not raised afterwards): %s", short(v))
 	}
 	c16Minimum(p, r, noc)
+	// the TTLs the minimum is taken over are the ones the records arrived with:
+	// between the decoder and the lookup nothing rewrites a record's TTL
+	{
+		ttlF := field(p, DNS, "RR", "TTL")
+		nTTL := 0
+		var all []*ssa.Function
+		all = append(all, p.PkgFuncs(DNS)...)
+		all = append(all, pkg...)
+		for _, st := range fieldStores(p, all, ttlF) {
+			root := core.Root(st.Parent())
+			name := p.FuncName(root)
+			if strings.HasPrefix(name, "(dns.decoder).") || name == "dns.DecodeMessage" {
+				// (in the decoder: the value read, nothing derived from it - for the
+				// OPT record the field holds the extended RCODE and flags)
+				asRead := false
+				for _, a := range p.X(st.Val).Alts() {
+					asRead = a.Op == "out" && strings.Contains(a.Name, "ReadUint32")
+					if !asRead {
+						break
+					}
+				}
+				if asRead {
+					continue
+				}
+			}
+			nTTL++
+			r.Check("C16.TTL", fmt.Sprintf("ttl:rewritten@%s#%d", name, nTTL), false, p.InstrPos(st), "%s rewrites the TTL of a record (%s): the cache lifetime is no longer the TTL the response carried", name, short(p.X(st.Val)))
+		}
+		r.Check("C16.TTL", "ttl:as-decoded", ttlF != nil && nTTL == 0, p.Pos(noc.Pos()), "record TTLs are written by the decoder only (%d other writers)", nTTL)
+	}
 
 	// --- NOFAIL
 	for _, fv := range []*types.Var{exp, res} {
@@ -243,6 +274,22 @@ func c16Rules(p *core.Prog, r *core.Run) {
 					if v.Op == "call" && (v.Name == "slices.Clone" || v.Name == "maps.Clone") {
 						fresh++
 					}
+					// the same by hand: append onto a new empty slice, a new map filled
+					// entry by entry
+					if v.Op == "call" && v.Name == "append" && len(v.Args) >= 1 {
+						if _, isSl := st.Val.(*ssa.Call).Call.Args[0].(*ssa.Slice); isSl {
+							if base := v.Args[0]; base.Op == "slice" && base.Args[0].Op == "new" {
+								fresh++
+							}
+						} else if _, isMk := st.Val.(*ssa.Call).Call.Args[0].(*ssa.MakeSlice); isMk {
+							fresh++
+						}
+					}
+					if _, isMap := st.Val.(*ssa.MakeMap); isMap {
+						if fa, ok := st.Addr.(*ssa.FieldAddr); ok && fieldVar(fa) != nil && fieldVar(fa).Name() == "Additional" {
+							fresh++
+						}
+					}
 				}
 			}
 		}
@@ -302,6 +349,118 @@ func c16Rules(p *core.Prog, r *core.Run) {
 			}
 		}
 	}
+	// what a result hands out (the lists of a ResolveResult, of its HTTPS records
+	// and of the Targets made from them) is shared with the cache and with every
+	// other holder of the result: the only code that may work on such a list in
+	// place is code that owns a fresh copy (a local being built, clone())
+	sharedField := func(e *core.Expr) bool {
+		if e.Op != "field" {
+			return false
+		}
+		switch e.Name {
+		case "ALPN", "ECH", "IPv4Hint", "IPv6Hint", "Address", "HTTPS", "Additional":
+			return true
+		}
+		return false
+	}
+	var rootOf func(e *core.Expr, depth int) string
+	rootOf = func(e *core.Expr, depth int) string {
+		if e == nil || depth > 12 {
+			return "?"
+		}
+		switch e.Op {
+		case "field", "index", "slice", "deref", "conv", "lookup":
+			return rootOf(e.Args[0], depth+1)
+		case "new":
+			return "local"
+		case "call":
+			switch {
+			case e.Name == "append" && len(e.Args) > 0:
+				if len(e.Args) > 0 && (e.Args[0].Name == "nil" || e.Args[0].Op == "const") {
+					return "fresh"
+				}
+				return rootOf(e.Args[0], depth+1)
+			case matches(`slices\.(Clone|Concat)|maps\.Clone|bytes\.Clone|\(ech\.ResolveResult\)\.clone`, e.Name):
+				return "fresh"
+			}
+			return "call"
+		case "phi", "cell":
+			worst := "fresh"
+			for _, a := range e.Args {
+				if k := rootOf(a, depth+1); k != "fresh" && k != "local" {
+					worst = k
+				}
+			}
+			return worst
+		case "const":
+			return "fresh"
+		}
+		return e.Op
+	}
+	nShared := 0
+	for _, fn := range pkg {
+		for _, s := range allCalls(p, []*ssa.Function{fn}) {
+			cx := s.X
+			if len(cx.Args) == 0 || !matches(`^(sort\.(Slice|SliceStable|Sort|Stable|Strings|Ints)|slices\.(Sort.*|Reverse|DeleteFunc|Delete|Compact.*|Insert|Replace)|append|copy|clear)$`, cx.Name) {
+				continue
+			}
+			dst := cx.Args[0]
+			if cx.Name == "append" {
+				if sl, ok := s.Instr.Common().Args[0].(*ssa.Slice); ok && sl.Max != nil {
+					continue
+				}
+			}
+			// the lists the destination can be: through re-slicing, the ways of a
+			// merge and earlier appends onto the same list
+			var leaves []*core.Expr
+			var expand func(e *core.Expr, depth int)
+			expand = func(e *core.Expr, depth int) {
+				if e == nil || depth > 8 {
+					return
+				}
+				switch {
+				case e.Op == "slice" || e.Op == "conv":
+					expand(e.Args[0], depth+1)
+				case e.Op == "phi" || e.Op == "cell":
+					for _, a := range e.Args {
+						expand(a, depth+1)
+					}
+				case e.Op == "call" && e.Name == "append" && len(e.Args) > 0:
+					expand(e.Args[0], depth+1)
+				default:
+					leaves = append(leaves, e)
+				}
+			}
+			expand(dst, 0)
+			root := ""
+			for _, base := range leaves {
+				if !sharedField(base) {
+					continue
+				}
+				k := rootOf(base, 0)
+				// (clone() and slices.Clone copy one level: the lists inside the
+				// elements of a copied list are still the shared ones)
+				if k == "fresh" && base.Args[0].Op == "index" {
+					inner := base.Args[0].Args[0]
+					for inner.Op == "slice" || inner.Op == "conv" {
+						inner = inner.Args[0]
+					}
+					if sharedField(inner) && rootOf(inner, 0) == "fresh" {
+						k = "a shallow copy"
+					}
+				}
+				if k != "local" && k != "fresh" {
+					root = k
+				}
+			}
+			if root == "" {
+				continue
+			}
+			nShared++
+			r.Check("C16.SHARE", fmt.Sprintf("result-lists-readonly:%s:%s#%d", p.FuncName(core.Root(fn)), cx.Name, nShared), false, p.InstrPos(s.Instr), "%s works in place on %s, a list a resolution result shares with the cache and its other holders (it comes from %s, not from a copy)", cx.Name, short(dst), root)
+		}
+	}
+	r.Check("C16.SHARE", "result-lists-readonly", nShared == 0, p.Pos(one.Pos()), "in-place operations on lists of shared results outside their owners: %d", nShared)
 	r.Check("C16.SHARE", "cached-slice-readonly", nMut == 0 && nUse >= 3, p.Pos(one.Pos()), "the slices handed out by resolveOne (the cache's own) are only read: %d element reads, %d in-place operations", nUse, nMut)
 
 	// --- RACE0
@@ -330,6 +489,8 @@ func c16Rules(p *core.Prog, r *core.Run) {
 	}
 	r.Check("C16.RACE0", "census", nBad == 0, p.Pos(rs.Pos()), "functions reachable from Resolve store to no global and no Resolver field (%d found)", nBad)
 
+	// ... of its own: two resolvers (for two services) never share answers
+	ownState(p, r, "C16.OWN", Ech, "Resolver", "cache")
 	// the container all lookups share: each of its operations takes the
 	// container's own lock first, or the resolver holds a lock of its own
 	// around the call
